@@ -657,6 +657,11 @@ func (s *Session) routingKeyInfo(ctx context.Context, stmt string) (*routingKeyI
 		// proto v4 dont need to calculate primary key columns
 		types := make([]TypeInfo, len(info.request.pkeyColumns))
 		for i, col := range info.request.pkeyColumns {
+			if col < 0 || col >= len(info.request.columns) {
+				// the PREPARED response names a partition key column it does not
+				// describe: no routing key, and no error
+				return nil, nil
+			}
 			types[i] = info.request.columns[col].TypeInfo
 		}
 
